@@ -109,6 +109,17 @@ class CurlyLow(SpanToken):
     precedence = 1
 
 
+class _CurlyTwin(SpanToken):
+    """A different user token class that happens to have the same class NAME as Curly (render_map is keyed by name)."""
+    pattern = re.compile(r'<<(.+?)>>')
+    parse_inner = False
+    precedence = 6
+
+
+_CurlyTwin.__name__ = 'Curly'
+_CurlyTwin.__qualname__ = 'Curly'
+
+
 class Bang(BlockToken):
     """Benign block token: a line starting with '!!! '."""
     def __init__(self, lines):
@@ -260,12 +271,12 @@ def unregister(name):
 
 
 TOKENS = {
-    'Curly': Curly, 'CurlyRaw': CurlyRaw, 'CurlyLow': CurlyLow, 'Bang': Bang, 'BangInterrupt': BangInterrupt,
+    'CurlyTwin': _CurlyTwin, 'Curly': Curly, 'CurlyRaw': CurlyRaw, 'CurlyLow': CurlyLow, 'Bang': Bang, 'BangInterrupt': BangInterrupt,
     'FaultBlockStart': FaultBlockStart, 'FaultBlockRead': FaultBlockRead, 'FaultBlockInit': FaultBlockInit,
     'FaultBlockInterrupt': FaultBlockInterrupt, 'FaultSpanFind': FaultSpanFind, 'FaultSpanInit': FaultSpanInit,
     'RenderFaultSpan': RenderFaultSpan, 'RenderFaultBlock': RenderFaultBlock,
 }
-BENIGN_SPAN = ['Curly', 'CurlyRaw', 'CurlyLow']
+BENIGN_SPAN = ['Curly', 'CurlyRaw', 'CurlyLow', 'CurlyTwin']
 BENIGN_BLOCK = ['Bang', 'BangInterrupt']
 FAULT_BLOCK = ['FaultBlockStart', 'FaultBlockRead', 'FaultBlockInit', 'FaultBlockInterrupt']
 FAULT_SPAN = ['FaultSpanFind', 'FaultSpanInit']
